@@ -16,7 +16,7 @@ atxt = "files " + ", ".join(anch.get("files", []))
 mech = anch.get("mechanism") or []
 if mech:
     atxt += "; mechanisms: " + "; ".join("%s (%s)" % (m.get("name"), m.get("where")) for m in mech)
-t = open(os.path.join(root, "lib", "seed_prompt.md")).read()
+t = open(os.path.join(root, "lib", "harmless_prompt.md" if os.environ.get("HARMLESS") else "seed_prompt.md")).read()
 import glob
 prev = []
 for f in sorted(glob.glob(os.path.join(root, "seeded", pid + "-*", "meta.json"))):
